@@ -553,3 +553,91 @@ def generated_fault_probe(p):
         return dict(status="not-reproduced", detail="rejected with %s: %s" % (type(e).__name__, str(e)[:150]))
     return dict(status="confirmed", failing_input=dict(generated_specification=i, fault=fault or "algebraic-with-explicit-scheme", spec={k: str(v)[:80] for k, v in kw.items()}),
                 observed="declared and transcribed without any exception", expected="an exception at declaration or transcription")
+
+
+def two_stage_probe(p):
+    """C12 / C05: two generated specifications as the stages of one master OCP on the real code: objective = sum of the
+    stages' oracle objectives, every oracle row of either stage is present in the NLP"""
+    import casadi as ca
+    from rockit import Ocp
+    from contracts import randspec
+    from contracts.spec import Spec
+    from contracts.oracle import Oracle
+    from replay.run import rows_of
+    i = p.get("index", -1)
+    try:
+        with contextlib.redirect_stdout(io.StringIO()):
+            master = Ocp()
+            if p.get("same_shape"):
+                from contracts.spec import E, Con
+                mk = lambda meth, f, L, c_: Spec(method=meth, N=2, M=2, degree=2, T=("fixed", 1.0), t0=("fixed", 0.0), states=[2], controls=[1], params={"": [1]},
+                                                 ode=E(f, None, ("x", "u", "p")), constraints=[Con(E(c_, 1, ("x", "u")), "le", 1.0)], objective=[("integral", E(L, 1, ("x", "u")))])
+                s1, s2 = mk(p["same_shape"][0], "fA", "LA", "cA"), mk(p["same_shape"][1], "fB", "LB", "cB")
+            else:
+                s1, s2 = Spec(**randspec.make(2 * i)), Spec(**randspec.make(2 * i + 1))
+            s1.build(parent=master); s2.build(parent=master)
+            master.solver("ipopt")
+            master._transcribed
+            aug = master._augmented
+            opti = aug._method.opti
+            J, exp, tags = 0, [], []
+            for sp, st in ((s1, aug._stages[0]), (s2, aug._stages[1])):
+                b = sp.bound_to(st)
+                orc = Oracle(b, st._method).expected()
+                J = J + orc.J
+                for r in orc.rows:
+                    for q in range(ca.MX(r["r"]).numel()):
+                        tags.append((r["kind"], "/".join(str(t) for t in r["tag"] + (q,))))
+                    exp.append(ca.vec(ca.MX(r["r"])))
+    except Exception as e:
+        return dict(status="confirmed", failing_input=dict(generated=[2 * i, 2 * i + 1]), observed="%s: %s" % (type(e).__name__, str(e)[:300]), expected="the two-stage OCP transcribes")
+    outs = [opti.f, ca.MX(J), opti.g, opti.lbg, opti.ubg, ca.vcat(exp) if exp else ca.MX(0, 1)]
+    known = ca.vertcat(opti.x, opti.p)
+    inactive = [s_ for s_ in ca.symvar(ca.veccat(*[ca.vec(o) for o in outs])) if not ca.depends_on(known, s_)]
+    F = ca.Function("F", [opti.x, opti.p] + inactive, outs)
+    rs = np.random.RandomState(0)
+    pv = np.array(opti.debug.value(opti.p, opti.value_parameters())).reshape(-1) if opti.p.numel() else np.zeros(0)
+    iv = []
+    for s_ in inactive:
+        try:
+            iv.append(np.array(opti.debug.value(s_, opti.value_parameters())))
+        except Exception:
+            iv.append(rs.uniform(0.3, 1.4, size=s_.shape))
+    pts = []
+    for _ in range(2):
+        xv = rs.uniform(0.3, 1.4, size=opti.x.numel())
+        pts.append([np.array(v).reshape(-1) for v in F(xv, pv, *iv)])
+    problems = []
+    for o in pts:
+        if abs(o[0][0] - o[1][0]) > 1e-7 * (1 + abs(o[1][0])):
+            problems.append(dict(what="objective of the two-stage OCP is not the sum of the stages' declared terms", observed=float(o[0][0]), expected=float(o[1][0])))
+            break
+    em = [rows_of(o[2], o[3], o[4]) for o in pts]
+    em_rows = [(em[0][j][0], np.array([em[q][j][2] for q in range(2)])) for j in range(len(em[0]))]
+    used = [False] * len(em_rows)
+    missing = []
+    for j, (kind, tag) in enumerate(tags):
+        v = np.array([pts[q][5][j] for q in range(2)])
+        hit = next((m for m, (k2, w) in enumerate(em_rows) if not used[m] and k2 == kind and np.all(np.abs(v - w) <= 1e-7 * (1 + np.abs(v)))), None)
+        if hit is None:
+            missing.append(tag)
+        else:
+            used[hit] = True
+    if missing:
+        problems.append(dict(what="rows demanded by a stage's declaration are absent from the NLP", rows=missing[:8], count=len(missing)))
+    if problems:
+        return dict(status="confirmed", failing_input=dict(generated=[2 * i, 2 * i + 1]), problems=problems)
+    return dict(status="not-reproduced", detail="objective and %d stage rows agree" % len(tags))
+
+
+def density_probe(p):
+    """C06: DensityGrid / DenseEdgesGrid / FunctionGrid node locations recomputed on the real code"""
+    from replay import density_grid
+    want = p.get("obligation", "")
+    for r in density_grid.main():
+        name = "sampling_method:%s.normalized:ensures:%s[%s,N=%d]" % (r["grid"].split("(")[0], r["what"], r["grid"], r["N"])
+        if name == want:
+            if r["ok"]:
+                return dict(status="not-reproduced", detail=r["detail"])
+            return dict(status="confirmed", failing_input=dict(grid=r["grid"], N=r["N"], note="after the other grid objects of this sequence were built in the same process"), observed=r["detail"], expected=r["what"])
+    return dict(status="error", detail="no such obligation: %s" % want)
